@@ -234,6 +234,13 @@ class BlockTr:
         self.skip = [re.sub(r"\s+", "", k) for k in item.get("skip", [])]
         self.havoc = [re.sub(r"\s+", "", k) for k in item.get("havoc", [])]
         self.bool_leaves = set()
+        self.n_fresh = {}
+        self.effect_arg = item.get("effect_arg", {})
+
+    def fresh(self, nm):
+        """leaf for the unknown value a variable has after an external call: nm_new, nm_new2, … (one per assignment)"""
+        self.n_fresh[nm] = self.n_fresh.get(nm, 0) + 1
+        return nm + "_new" + ("" if self.n_fresh[nm] == 1 else str(self.n_fresh[nm]))
 
     def name_of(self, target):
         return sanitize(ast.get_source_segment(self.src, target))
@@ -306,7 +313,7 @@ class BlockTr:
                     if isinstance(e, (ast.Name, ast.Attribute, ast.Subscript)):
                         nm = self.name_of(e)
                         env.pop(nm, None)
-                        env[nm] = self.cur({}, nm + "_new")
+                        env[nm] = self.cur({}, self.fresh(nm))
                 return self.run(rest, env)
         return self.run1(s, rest, env)
 
@@ -351,7 +358,7 @@ class BlockTr:
                     for e in (t.elts if isinstance(t, ast.Tuple) else [t]):
                         nm = self.name_of(e)
                         env.pop(nm, None)
-                        env[nm] = self.cur({}, nm + "_new")
+                        env[nm] = self.cur({}, self.fresh(nm))
                 return self.run(rest, env)
             for t in s.targets:
                 if isinstance(t, ast.Tuple):
@@ -382,6 +389,9 @@ class BlockTr:
                         if u != v and ("effseq_%s_%s" % (v, u)) not in env:
                             env["effseq_%s_%s" % (v, u)] = self.cur(env, "eff_" + u)
                     env["eff_" + v] = "true"
+                    if v in self.effect_arg:
+                        # the value handed to the effect (argument index from the spec)
+                        env["effarg_" + v] = self.expr(env, s.value.args[self.effect_arg[v]])
                     return self.run(rest, env)
             raise Unsupported("statement with an unlisted side effect: " + ast.unparse(s)[:80])
         raise Unsupported("statement " + type(s).__name__ + ": " + ast.unparse(s)[:60])
@@ -437,7 +447,7 @@ def extract_block(item):
             raise Unsupported(f"{item['name']}: block does not assign {o['var']}")
         outs.append(bt.cur(env, o["var"]))
     extra = sorted(k for k in env if k not in {o["var"] for o in item["outputs"]} and k not in item.get("locals", [])
-                   and not k.startswith("effseq_"))
+                   and not k.startswith("effseq_") and not k.startswith("effarg_"))
     if extra and item.get("strict", True):
         # a NEW assigned variable = the code was restructured (or grew a new piece of state)
         raise Unsupported(f"{item['name']}: block assigns unexpected variables {extra}")
@@ -447,7 +457,9 @@ def extract_block(item):
     # synthetic `condK` leaves (an untranslatable test on which an OUTPUT now depends) are not a restructuring: they stay
     # parameters of the definition, so the tie lemma no longer applies -> broken obligation (the block's control
     # dependence changed); a leaf that DISAPPEARED is left to the tie lemma as well; only a new named leaf = restructured
-    named = [l for l in leaves if l not in bt.bool_leaves]
+    # (the entry value of an OUTPUT variable appearing as a leaf = "the block now sometimes keeps the old value": likewise)
+    outvars = {o["var"] for o in item["outputs"]}
+    named = [l for l in leaves if l not in bt.bool_leaves and (l not in outvars or l in item.get("leaves", []))]
     if "leaves" in item and sorted(item["leaves"]) != named:
         if not set(named) <= set(item["leaves"]):
             raise Unsupported(f"{item['name']}: leaves {named} differ from expected {sorted(item['leaves'])}")
@@ -457,7 +469,7 @@ def extract_block(item):
     binders = " ".join(f"({quote(l)} : {lt.get(l, dty or 'α')})" for l in leaves)
     rty = " × ".join(o["type"] for o in item["outputs"])
     generic = (dty is None) and (any(l not in lt for l in leaves) or any(o["type"] == "α" for o in item["outputs"]))
-    head = f"def {item['name']} "
+    head = f"def {item['name']} " + (item["type_params"] + " " if item.get("type_params") else "")
     if generic:
         head += "{α : Type} " + item.get("classes", "[Add α] [Sub α] [Mul α] [Div α] [Neg α] [OfNat α 0] [OfNat α 1] [OfNat α 2]") + " "
     body = outs[0] if len(outs) == 1 else "(" + ",\n   ".join(outs) + ")"
